@@ -801,6 +801,49 @@ func (w *World) streamRef(ref int) *StreamM {
 	return ss[ref%len(ss)]
 }
 
+// steerEntParams adapts a (valid) enterprise parameter patch to the orders in flight, in place (the patch stays the
+// record of what was proposed): 1 = fewer signers than decisions already recorded on some raised order; 2 = MinAccepts
+// equal to the accepts already recorded on some raised order (the recorded decisions settle it under the new values).
+func (w *World) steerEntParams(p *ParamsPatch) {
+	kind := p.Steer
+	p.Steer = 0 // once: the message is rebuilt from the patch later (when the proposal's outcome is judged) and must not change
+	var best *Order
+	for _, o := range w.Ent.Orders {
+		if o.Status == StRaised && len(o.Decisions) >= 1 && (best == nil || len(o.Decisions) > len(best.Decisions)) {
+			best = o
+		}
+	}
+	if best == nil {
+		return
+	}
+	switch kind {
+	case 1:
+		n := len(best.Decisions) - 1
+		if n < 1 {
+			return
+		}
+		if len(p.Signers) > n {
+			p.Signers = p.Signers[:n]
+		}
+		if p.MinAccepts > uint64(n) {
+			p.MinAccepts = uint64(n)
+		}
+		w.Class("gov.ent-params-steered.fewer-signers-than-recorded-decisions")
+	case 2:
+		acc := 0
+		for _, d := range best.Decisions {
+			if d.Accept {
+				acc++
+			}
+		}
+		if acc < 1 || acc > len(p.Signers) {
+			return
+		}
+		p.MinAccepts = uint64(acc)
+		w.Class("gov.ent-params-steered.min-accepts-equals-recorded-accepts")
+	}
+}
+
 func (w *World) paramsMsg(op *Op, named Addr) sdk.Msg {
 	p := op.P
 	if p == nil {
@@ -815,6 +858,9 @@ func (w *World) paramsMsg(op *Op, named Addr) sdk.Msg {
 	}
 	switch op.Kind {
 	case ParamsEnt:
+		if p.Steer > 0 && p.SignersRaw == "" && len(p.Signers) > 0 {
+			w.steerEntParams(p)
+		}
 		signers := p.SignersRaw
 		for k := 0; k < 4; k++ {
 			signers = strings.ReplaceAll(signers, fmt.Sprintf("{%d}", k), w.acct(k).Bytes.String())
